@@ -455,7 +455,7 @@ def hex64 (b : UInt64) : String :=
 def fmtCell (mask : Bool) : V → String
   | .nil => "nil"
   | .int i => s!"i:{i}"
-  | .dec d => if mask then "d:*" else "d:" ++ hex64 d.toBits
+  | .dec d => if mask then "d:*" else if d.isNaN then "d:7ff8000000000001" else "d:" ++ hex64 d.toBits
   | .str s => "'" ++ s
   | .bool b => if b then "b:1" else "b:0"
   | .ts t => s!"t:{t}"
@@ -539,5 +539,139 @@ def parseObs (obs : String) : Option Obs :=
       | _ => none
     | _ => none
   | _ => none
+
+end ShpanVerif.Drive.QueryIO
+
+namespace ShpanVerif.Drive.QueryIO
+open ShpanVerif.Util ShpanVerif.Model.Query
+
+/-! ## parsed case lines and the checks shared by the C10 / C11 spec predicates -/
+
+inductive QCase
+  | rep (mask : Bool) (from_ to : Int) (q : RDs Float)
+  | ds (mask : Bool) (from_ to : Int) (q : DDs Float)
+  | tw (mask : Bool) (from_ to : Int) (fm : FieldMeta) (rows : List (DRec Float)) (fs : List (DFilter Float))
+
+def parseMode : String → Option Bool
+  | "exact" => some false
+  | "mask" => some true
+  | _ => none
+
+def parseQCase (c : String) : Option QCase :=
+  match words c with
+  | "q" :: "rep" :: mode :: f :: t :: rest => do
+    let es ← parseSExps rest
+    match es with
+    | [e] => pure (.rep (← parseMode mode) (← f.toInt?) (← t.toInt?) (← parseRDs e))
+    | _ => none
+  | "q" :: "ds" :: mode :: f :: t :: rest => do
+    let es ← parseSExps rest
+    match es with
+    | [e] => pure (.ds (← parseMode mode) (← f.toInt?) (← t.toInt?) (← parseDDs e))
+    | _ => none
+  | "tw" :: mode :: f :: t :: rest => do
+    let es ← parseSExps rest
+    match es with
+    | [e] =>
+      match ← parseDDs e with
+      | .static fm rows => pure (.tw (← parseMode mode) (← f.toInt?) (← t.toInt?) fm rows [])
+      | .filtered (.static fm rows) fs => pure (.tw (← parseMode mode) (← f.toInt?) (← t.toInt?) fm rows fs)
+      | _ => none
+    | _ => none
+  | _ => none
+
+/-- dynamic tag check of one cell against a declared field -/
+def cellOk (m : FieldMeta) : V → Bool
+  | .nil => !m.required
+  | .int _ => m.dt == .integer
+  | .dec _ => m.dt == .decimal
+  | .str _ => m.dt == .string
+  | .bool _ => m.dt == .boolean
+  | .ts _ => m.dt == .timestamp
+
+def rowOk (metas : List FieldMeta) (cells : List V) : Bool :=
+  cells.length == metas.length && (metas.zip cells).all fun p => cellOk p.1 p.2
+
+def increasing : List Int → Bool
+  | [] => true
+  | [_] => true
+  | a :: b :: r => decide (a < b) && increasing (b :: r)
+
+def metasOk (metas : List FieldMeta) : Bool :=
+  let urns := metas.map (·.urn)
+  metas.all (fun m => m.urn != "" && m.dt.valid) && urns.eraseDups.length == urns.length
+
+/- are all static inputs of the tree schema-conforming with strictly increasing timestamps and valid metadata? -/
+mutual
+  def inputsOkR : RDs Float → Bool
+    | .static metas rows =>
+      metas.all (fun m => m.urn != "" && m.dt.valid) && rows.all (fun r => rowOk metas r.vals) && increasing (rows.map (·.ts))
+    | .filtered ds _ => inputsOkR ds
+    | .join _ srcs => inputsOkRL srcs
+    | .fromDs d => inputsOkD d
+  def inputsOkRL : RDsL Float → Bool
+    | .nil => true
+    | .cons d l => inputsOkR d && inputsOkRL l
+  def inputsOkD : DDs Float → Bool
+    | .static m rows =>
+      m.urn != "" && m.dt.valid && rows.all (fun r => cellOk m r.val) && increasing (rows.map (·.ts))
+    | .filtered d _ => inputsOkD d
+    | .reduction _ _ _ _ srcs => inputsOkDL srcs
+    | .fromReport r _ => inputsOkR r
+  def inputsOkDL : DDsL Float → Bool
+    | .nil => true
+    | .cons d l => inputsOkD d && inputsOkDL l
+end
+
+/-- input construction in the harness: `NewFieldMetaWithCustomData` of every `fm` and the static-datasource
+constructors run in textual order before any `Execute`; the first failure is the observation. -/
+def fmErr (m : FieldMeta) : Option PlanErr :=
+  if m.urn == "" then some .metaEmptyUrn else if !m.dt.valid then some .metaInvalidType else none
+
+mutual
+  def inputErrR : RDs Float → Option PlanErr
+    | .static metas _ =>
+      match metas.findSome? fmErr with
+      | some e => some e
+      | none => if metas.isEmpty then some .staticEmpty else if hasDupUrn metas [] then some .staticDup else none
+    | .filtered ds _ => inputErrR ds
+    | .join _ srcs => inputErrRL srcs
+    | .fromDs d => inputErrD d
+  def inputErrRL : RDsL Float → Option PlanErr
+    | .nil => none
+    | .cons d l =>
+      match inputErrR d with
+      | some e => some e
+      | none => inputErrRL l
+  def inputErrD : DDs Float → Option PlanErr
+    | .static m _ => fmErr m
+    | .filtered d _ => inputErrD d
+    | .reduction _ _ _ _ srcs => inputErrDL srcs
+    | .fromReport r _ => inputErrR r
+  def inputErrDL : DDsL Float → Option PlanErr
+    | .nil => none
+    | .cons d l =>
+      match inputErrD d with
+      | some e => some e
+      | none => inputErrDL l
+end
+
+def rejectStr (e : PlanErr) : String := s!"reject {fmtPlanErr e} prepull=0"
+
+/-- C10's clause list evaluated on an observation: (ok?, reason) -/
+def soundObs (o : Obs) : Bool × String :=
+  if o.prepull != 0 then (false, s!"records pulled during Execute: {o.prepull}")
+  else match o.reject with
+    | some _ => (true, "")
+    | none =>
+      if !metasOk o.metas then (false, "metadata: empty/duplicate urn or invalid data type")
+      else if o.rowerr then (true, "")
+      else
+        let bad := o.rows.find? fun r =>
+          !(r.2.all Option.isSome && rowOk o.metas (r.2.filterMap id))
+        match bad with
+        | some r => (false, s!"row at ts {r.1} does not conform to the declared schema")
+        | none =>
+          if !increasing (o.rows.map (·.1)) then (false, "timestamps not strictly increasing") else (true, "")
 
 end ShpanVerif.Drive.QueryIO
